@@ -237,6 +237,9 @@ class Run:
 
     def violation(self, signature, what, replay):
         """signature: dict used to match known findings."""
+        if os.environ.get("VERIF_DUMP_SIGNATURES"):          # maintenance aid (tools/rekey_known13.py): every signature seen, matched or not
+            with open(os.environ["VERIF_DUMP_SIGNATURES"], "a") as fh:
+                fh.write(json.dumps(signature, default=str) + "\n")
         for k in self.known.get("known", []):
             if k.get("property") == self.prop and sig_match(k.get("signature", {}), signature):
                 if k["id"] not in [h["id"] for h in self.known_hits]:
